@@ -151,6 +151,23 @@ def check_source(desc, proto, max_in, max_out, as_kind):
             return 0, 0, found
         for v in main.initializers.values():
             main.inputs.append(v)
+    if as_kind == "graph_sharded":
+        # every node carries two device configurations: the first shards the node's own output (and first input),
+        # the last one is placement only
+        if len(main) == 0:
+            return 0, 0, found
+        try:
+            tp = model.add_device_configuration("tp", num_devices=2)
+            pp = model.add_device_configuration("pp", num_devices=1)
+            for nd in main:
+                if nd.outputs and nd.outputs[0].name and (nd.outputs[0].shape is None or len(nd.outputs[0].shape) > 0):
+                    nd.shard(nd.outputs[0], configuration=tp, axis=0, num_shards=2)
+                ins0 = [v for v in nd.inputs if v is not None and (v.shape is None or len(v.shape) > 0)]
+                if ins0:
+                    nd.shard(ins0[0], configuration=tp, axis=0, num_shards=2)
+                nd.set_pipeline_stage(pp, 1)
+        except Exception as e:  # noqa: BLE001
+            raise common.HarnessError(f"C18: could not annotate the source: {type(e).__name__}: {e}") from None
     if as_kind == "function":
         for k, v in list(main.initializers.items()):
             if not v.uses() and not v.is_graph_output():
@@ -196,6 +213,18 @@ def check_source(desc, proto, max_in, max_out, as_kind):
                         if [v.name for v in res.inputs] != [v.name for v in ins] or [v.name for v in res.outputs] != [v.name for v in outs]:
                             bad("boundary_not_preserved", ([v.name for v in res.inputs], [v.name for v in res.outputs]), cut)
                         shared = [o for o in c13._objs([res]) if id(o) in src_ids]
+                        # annotations of the extracted nodes are bound to values by identity: they must name the
+                        # extracted node's own inputs/outputs, never objects of the source
+                        for rn in res:
+                            own = {id(v) for v in list(rn.inputs) + list(rn.outputs) if v is not None}
+                            for dc in rn.device_configurations:
+                                for spec in dc.sharding_specs:
+                                    if spec.value is not None and id(spec.value) in src_ids:
+                                        shared.append(spec.value)
+                                    elif spec.value is not None and id(spec.value) not in own:
+                                        bad("annotation_of_extracted_node_targets_a_foreign_value", (rn.name, spec.value.name), cut)
+                        if as_kind == "graph_sharded" and any(not n_.device_configurations for n_ in res):
+                            bad("annotations_lost_by_extraction", [n_.name for n_ in res if not n_.device_configurations], cut)
                         if shared:
                             bad("result_shares_objects_with_the_source", [type(o).__name__ + ":" + str(getattr(o, "name", None)) for o in shared[:3]], cut)
                         # independence of references: every value used inside is defined inside
@@ -216,6 +245,47 @@ def check_source(desc, proto, max_in, max_out, as_kind):
                             bad("extracted_region_does_not_evaluate", str(e)[:140], cut)
                         except Exception as e:  # noqa: BLE001
                             bad("extracted_region_not_serialisable", f"{type(e).__name__}: {e}"[:140], cut)
+    # by-name boundaries after the names moved: extract once by name, let two values swap names, extract by name
+    # again - the names must be resolved against the source as it is now
+    if as_kind in ("graph", "function") and not found:
+        produced = [v for v in values if v.producer() is not None and v.name]
+        for a, b in itertools.combinations(produced, 2):
+            try:
+                ir_conv.extract(src, [], [a.name, b.name])
+            except Exception:  # noqa: BLE001
+                pass
+            na, nb = a.name, b.name
+            a.name = "c18_tmp_name"
+            b.name = na
+            a.name = nb
+            try:
+                for v in (a, b):
+                    n_cuts += 1
+                    ref_nodes, ref_inits, uncovered = reference_region(main, [], [v])
+                    cut = ([], [v.name], "by_name_after_name_swap")
+                    try:
+                        res = ir_conv.extract(src, [], [v.name])
+                    except Exception as e:  # noqa: BLE001
+                        if not uncovered:
+                            bad("bounded_region_rejected_after_name_swap", f"{type(e).__name__}: {e}"[:120], cut)
+                        continue
+                    if uncovered:
+                        n_raised += 1
+                        bad("uncovered_requirement_did_not_raise", [u.name for u in uncovered], cut)
+                        continue
+                    if [n.name for n in res] != [n.name for n in ref_nodes]:
+                        bad("names_resolved_against_an_earlier_state_of_the_source", ([n.name for n in res], [n.name for n in ref_nodes]), cut)
+                # a name that no longer exists must be refused
+                n_cuts += 1
+                try:
+                    ir_conv.extract(src, [], ["c18_tmp_name"])
+                    bad("unknown_boundary_name_accepted", "c18_tmp_name", ([], ["c18_tmp_name"], "by_name"))
+                except Exception:  # noqa: BLE001
+                    pass
+            finally:
+                b.name = "c18_tmp_name"
+                a.name = na
+                b.name = nb
     return n_cuts, n_raised, found
 
 
@@ -345,6 +415,9 @@ def main(tier):
     srcs = sources(tier)
     step = max(1, len(srcs) // 128)
     tasks = [(srcs[i:i + step], ("graph", "view", "function", "graph_init_inputs")) for i in range(0, len(srcs), step)]
+    # annotated sources: the one- and two-node sources only (the cloner's annotation remapping does not depend on the rest)
+    small = [x for x in srcs if x[0] in ("n1", "nested")] + [x for x in srcs if x[0] == "n2"][::40]
+    tasks += [(small[i:i + 8], ("graph_sharded",)) for i in range(0, len(small), 8)]
     res = common.pmap(_work, common.shuffled(tasks, "c18"), chunksize=1)
     total = sum(a for a, _, _ in res)
     raised = sum(b for _, b, _ in res)
@@ -379,7 +452,7 @@ def replay(obj):
     src = inp["source"]
     forms = tuple(tuple(f) for f in src[0])
     proto = gg.make_model(forms, tuple(src[1]))
-    for kind in ("graph", "view", "function", "graph_init_inputs"):
+    for kind in ("graph", "view", "function", "graph_init_inputs", "graph_sharded"):
         n, rs, found = check_source((forms, src[1]), proto, 2, 2, kind)
         bad = [k for k in found if k.startswith(obj["oracle"])]
         if bad:
